@@ -94,6 +94,8 @@ class Model:
     for init in self.list_init.values():
       for tk in init:
         self.tokens.setdefault(abs_tok(tk), len(self.tokens))
+    for tk in self.init_present.values():
+      self.tokens.setdefault(abs_tok(tk), len(self.tokens))
     self.solver_s = 0.0
     self.queries = 0
     self._build()
@@ -157,8 +159,8 @@ class Model:
     for i in range(N):
       cons.append(self.node[i][0] == 0)
     for c, ci in self.cells.items():
-      cons.append(self.pres[ci][0] == bool(self.init_present.get(c, False)))
-      cons.append(self.val[ci][0] == 0)
+      cons.append(self.pres[ci][0] == (c in self.init_present))
+      cons.append(self.val[ci][0] == IV(self.tokens.get(abs_tok(self.init_present.get(c)), 0)))
     for o in range(len(self.objs)):
       cons.append(self.ver[o][0] == 0)
       for i in range(N):
